@@ -1,7 +1,7 @@
 (* Property C03 — addition, subtraction and comparison never mix quantity types;
    sums are exact by reference value.  Statements only. *)
 From Coq Require Import ZArith QArith Qabs List Bool.
-From QV Require Import Model.Num Model.Rounding Model.Quantity
+From QV Require Import Gen.QuantityImpl Proofs.GenQuantityEq Model.Num Model.Rounding Model.Quantity
      Proofs.QuantityProofs Proofs.C13Proofs Proofs.C01Proofs Proofs.C03C04Proofs.
 
 Theorem C03_mixed_add_sub : forall sub ce dm p q,
@@ -107,6 +107,13 @@ Theorem C03_sum_function_is_fold : forall ce dm p l,
   fold_left (fun acc x => bind acc (fun a => qty_add ce dm a x)) l (Ok p).
 Proof. exact sum_is_fold. Qed.
 Print Assumptions C03_sum_function_is_fold.
+
+(* THE MODEL IS THE CODE: addition and subtraction as re-translated from
+   src/quantity/__init__.py on every run equal the model functions above *)
+Theorem C03_model_is_translated_code : forall ce dm p q,
+  qty_add_impl ce dm p q = qty_add ce dm p q /\ qty_sub_impl ce dm p q = qty_sub ce dm p q.
+Proof. intros. split; [apply qty_add_impl_eq | apply qty_sub_impl_eq]. Qed.
+Print Assumptions C03_model_is_translated_code.
 
 Definition ex_m  := mkUnit 1 7 true (Some 1) None.
 Definition ex_cm := mkUnit 2 7 true (Some (1 # 100)) None.
